@@ -665,6 +665,37 @@ impl Property for C16 {
                         if verdict != "pos=1 novars=1 others=1" {
                             out.fail(Kind::ImplVsSpec, "vr", format!("vr spec: {verdict}"), format!("input: {rest}\noutput: {i}\nverdict: {verdict}"));
                         }
+                        // the repository's register tracker `dvi::Values` against the DVI standard's
+                        // (the tracker `Track` of the spec): position and font at every character and rule
+                        let want = drv.ask(&format!("pos {}", join(&enc_ops(&ops))));
+                        let ops2 = ops.clone();
+                        if let Ok(mine) = caught(move || {
+                            let mut vals: dvi::Values = Default::default();
+                            let mut o: Vec<i64> = vec![];
+                            for op in &ops2 {
+                                let mark = match op {
+                                    Op::TypesetChar { char, move_h } => Some(vec![0, *char as i64, *move_h as i64]),
+                                    Op::TypesetRule { height, width, move_h } => Some(vec![1, *height as i64, *width as i64, *move_h as i64]),
+                                    _ => None,
+                                };
+                                if let Some(m) = mark {
+                                    o.extend(m);
+                                    o.push(vals.f() as i64);
+                                    let (h, hc) = vals.h();
+                                    o.extend([h as i64, vals.v() as i64, hc.len() as i64]);
+                                    for (c, f) in hc {
+                                        o.extend([*c as i64, *f as i64]);
+                                    }
+                                }
+                                vals.update(op);
+                            }
+                            join(&o)
+                        }) {
+                            if mine != want {
+                                out.fail(Kind::ImplVsModel, "vr", "dvi::Values: position or font at a character/rule differs from the DVI standard's registers",
+                                    format!("input: {rest}\nValues: {mine}\nspec:   {want}"));
+                            }
+                        }
                     }
                 }
                 out
@@ -713,6 +744,14 @@ impl Property for C16 {
                         out.tag("bin:invalid-input");
                         if st.success() {
                             out.fail(Kind::ImplVsModel, "bin", "dvitools normalize accepts invalid data", m.clone());
+                        } else {
+                            // a failed run leaves the output path as it was (absent, or the old file)
+                            let now = std::fs::read(&outp).ok();
+                            let before = if old > 0 { Some(vec![138u8; old]) } else { None };
+                            if now != before {
+                                out.fail(Kind::ImplVsModel, "bin", "dvitools normalize reports an error but has written the output file",
+                                    format!("output now: {:?} bytes, before: {:?} bytes", now.map(|v| v.len()), before.map(|v| v.len())));
+                            }
                         }
                     }
                     (Err(e), _) => out.fail(Kind::ImplVsModel, "bin", "dvitools cannot be run", e.to_string()),
